@@ -26,12 +26,52 @@ class Host:
         # thread (empty contextvars context) and joins it - a synchronous hop, so the schedule stays deterministic.
         # Callables that were already reachable from the names mapping when the evaluation started are called directly
         # (a host that moves a lambda kept from an earlier call onto a thread has to carry the context over itself).
+        # re-entry (world cfg 'reentry'): the host function re(i) calls back into the SAME parser in the middle of an
+        # evaluation - a complete evaluation / parse / (partial) name listing of its own (mirror: Model.call_host 're')
+        self.reentry = []
+        self.parser = None
+        self.cur_names = None
+        self.suspended_gens = []
         self.thread_hop = False
         self.old_fn_ids = frozenset()
         self.hops = 0
         self._hop_depth = 0
 
+    def reenter(self, i):
+        from . import lang
+        try:
+            spec = self.reentry[int(i) % len(self.reentry)]
+        except Exception:
+            return None
+        api = spec.get('api', 'eval')
+        with monitors.suspended():
+            try:
+                if api == 'eval':
+                    names = self.cur_names if spec.get('names') == 'same' and self.cur_names is not None else {}
+                    v = self.parser.eval(lang.render(spec['prog'], spec.get('style', 0)), names, max_ops_evaluated=spec.get('budget', 500))
+                    out = v
+                elif api == 'parse':
+                    self.parser.parse(lang.render(spec['prog'], 0) if 'prog' in spec else spec['src'])
+                    out = 'parsed'
+                else:
+                    got = []
+                    it = iter(self.parser.list_names(lang.render(spec['prog'], 0)))
+                    n = spec.get('consume')
+                    while n is None or len(got) < n:
+                        try:
+                            got.append(next(it))
+                        except StopIteration:
+                            break
+                    if n is not None:
+                        self.suspended_gens.append(it)      # abandoned midway, kept alive by the host
+                    out = got
+            except Exception as e:
+                out = 'inner-failed:' + classify(e)
+        self.log.append(('re', str(i), canon.cdigest(out, monitors.M.fn_names) if not isinstance(out, str) else out))
+        return out
+
     def begin_eval(self, names):
+        self.cur_names = names
         if not self.thread_hop:
             return
         ids = set()
@@ -114,6 +154,8 @@ class Host:
                 host.reentries += 1
                 if host.on_reenter:
                     return host.on_reenter(*args)
+                if host.reentry and host.parser is not None:
+                    return host.reenter(args[0] if args else 0)
                 return None
 
             self._fns = {'t': t, 'boom': boom, 'call': call, 'attempt': attempt, 'keep': keep, 're': re}
